@@ -53,12 +53,24 @@ def observed_payload(msg) -> list[int] | None:
     return list(v.to_bytes((v.bit_length() + 7) // 8, "little"))
 
 
-def feed(dec, s: int, seq: int, fc: int, length: int, chunk: list[int]) -> dict:
-    """one frame into the real decoder (EByte path); returns the event with the observation"""
+RECV_BUFFER = bytearray(13)      # a receive buffer an application reuses for every packet (sock.recv_into)
+
+
+def feed(dec, s: int, seq: int, fc: int, length: int, chunk: list[int], via: str = "bytes") -> dict:
+    """one frame into the real decoder (EByte path); returns the event with the observation.
+    via = "view": the packet is handed over as a memoryview of one reused buffer - whatever the decoder keeps of a frame
+    must be its own copy"""
     pgn, src, dst = STREAMS[s]
     ev = {"s": s, "seq": seq, "fc": fc, "len": length, "chunk": chunk, "obs": "none", "payload": []}
     try:
-        msg = dec.decode_tcp(ebyte_packet(pgn, src, dst, PRIO, can_data(seq, fc, length, chunk)))
+        pkt = ebyte_packet(pgn, src, dst, PRIO, can_data(seq, fc, length, chunk))
+        if via == "view":
+            RECV_BUFFER[:] = pkt
+            pkt = memoryview(RECV_BUFFER)
+        elif via == "buffer":
+            RECV_BUFFER[:] = pkt
+            pkt = RECV_BUFFER
+        msg = dec.decode_tcp(pkt)
     except Exception as e:                 # noqa: BLE001
         ev["obs"], ev["err"] = "err", f"{type(e).__name__}: {e}"[:120]
         return ev
